@@ -183,7 +183,7 @@ func runC03(c *Ctx) {
 		"the DHCP option order list puts the subnet mask before the router. Not decided: DHCP option maps and DNS names (loops over caller data), Parse classification of composed frames (C02 decides classification per constant), NDP option bodies."
 	r.Assume("MAC parameters have at least 6 bytes, IPv4 address parameters 4 bytes", "copy() copies min(len(dst), len(src)); shorter arguments leave stale bytes")
 	r.Rule("roundtrip", "getter(encoder(args)) == the supplied argument / documented constant", 70)
-	r.Rule("capacity", "AppendPayload/SetPayload never write past capacity; too-big payloads get ErrPayloadTooBig", 7)
+	r.Rule("capacity", "AppendPayload/SetPayload never write past capacity; too-big payloads get ErrPayloadTooBig", 8)
 	r.Rule("option-order", "subnet mask is encoded before the router option", 1)
 
 	addrT := addrStructOf(c.P)
@@ -537,7 +537,37 @@ func runC03(c *Ctx) {
 		h.AddFact(recv.Cap.AddC(-60))
 		h.SetKnown(recv, 12, absint.Const(0x08)) // an untagged EtherType, as EncodeEther writes it
 		h.SetKnown(recv, 13, absint.Const(0x00))
-		in.Exec(fn, []absint.Value{recv, pay}, nil, h)
+		outs := in.Exec(fn, []absint.Value{recv, pay}, nil, h)
+		// the frame returned carries the whole payload: on every successful outcome len(result) >= 14 + len(payload)
+		whole, nOK := true, 0
+		wholeDet := ""
+		for _, o := range outs {
+			if o.Panicked {
+				continue
+			}
+			tv, ok := o.Ret.(absint.TupleV)
+			if !ok || len(tv.F) != 2 {
+				continue
+			}
+			sv, isSlice := tv.F[0].(absint.SliceV)
+			if !isSlice || sv.IsNil {
+				continue // the error result
+			}
+			nOK++
+			if !o.H.Entails(sv.Len.Sub(pay.Len).AddC(-14)) {
+				whole = false
+				wholeDet = "on a successful path the frame returned has length " + sv.Len.String() + ", which is not provably at least 14 + len(payload): the end of the payload is cut off"
+			}
+		}
+		wst := core.Proved
+		if !whole || nOK == 0 {
+			wst = core.Violated
+			if nOK == 0 {
+				wholeDet = "no successful outcome of Ether.AppendPayload was evaluated"
+			}
+		}
+		r.Add(core.Obligation{Rule: "capacity", Key: "capacity Ether.AppendPayload returns the whole frame", Func: core.FuncName(fn), Pos: c.P.Pos(fn.Pos()), Status: wst,
+			Basis: fmt.Sprintf("len(result) >= 14 + len(payload) on %d successful outcomes", nOK), Detail: wholeDet})
 		st := core.Proved
 		if len(fails) > 0 || n == 0 {
 			st = core.Violated
